@@ -270,4 +270,133 @@ theorem mapM_lookup (refs : List Key) (qs : List Key) :
     · simp [h]; split <;> rfl
     · simp [h]; rfl
 
+/-! ### `struct_conn`: written rows are matched back -/
+
+theorem idxsFrom_not_mem (q : Key) : ∀ (rs : List Key) (k : Nat), q ∉ rs → idxsFrom q k rs = [] := by
+  intro rs
+  induction rs with
+  | nil => intros; rfl
+  | cons r rs ih =>
+    intro k h
+    have h1 : r ≠ q := fun e => h (by simp [e])
+    have h2 : q ∉ rs := fun e => h (by simp [e])
+    simp [idxsFrom, h1, ih (k + 1) h2]
+
+theorem idxsFrom_nodup : ∀ (refs : List Key) (k i : Nat) (h : i < refs.length), refs.Nodup →
+    idxsFrom refs[i] k refs = [k + i] := by
+  intro refs
+  induction refs with
+  | nil => intro k i h; simp at h
+  | cons r rs ih =>
+    intro k i h hnd
+    have hr : r ∉ rs := (List.nodup_cons.mp hnd).1
+    have hrs : rs.Nodup := (List.nodup_cons.mp hnd).2
+    cases i with
+    | zero => simp [idxsFrom, idxsFrom_not_mem r rs (k + 1) hr]
+    | succ i =>
+      have hi : i < rs.length := by simpa using h
+      have hne : r ≠ rs[i] := fun e => hr (e ▸ List.getElem_mem hi)
+      simp only [List.getElem_cons_succ, idxsFrom, hne, if_false]
+      rw [ih (k + 1) i hi hrs]
+      congr 1; omega
+
+/-- The row `connRows` writes for bond `b` as row number `k+1`. -/
+def mkConnRow (site : List SiteRow) (k : Nat) (b : Bond) : ConnRow :=
+  let key := fun (i : Nat) => match site[i]? with
+    | some r => siteKeyRaw r
+    | none => ⟨"", "", 0, "", ""⟩
+  ⟨k + 1, (interTypeId b.t).getD "", ⟨(interOrder b.t).getD "", if interOrderMasked b.t then .missing else .present⟩,
+   key b.i, key b.j⟩
+
+def mkConnRows (site : List SiteRow) : Nat → List Bond → List ConnRow
+  | _, [] => []
+  | k, b :: bs => mkConnRow site k b :: mkConnRows site (k + 1) bs
+
+def InterOk (t : Nat) : Prop := t = 1 ∨ t = 2 ∨ t = 3 ∨ t = 4 ∨ t = 8
+instance (t : Nat) : Decidable (InterOk t) := by unfold InterOk; infer_instance
+
+theorem connRows_eq (site : List SiteRow) : ∀ (bs : List Bond) (k : Nat), (∀ b ∈ bs, InterOk b.t) →
+    connRows k site bs = .ok (mkConnRows site k bs) := by
+  intro bs
+  induction bs with
+  | nil => intros; rfl
+  | cons b bs ih =>
+    intro k h
+    have hb := h b (by simp)
+    have ih' := ih (k + 1) (fun x hx => h x (by simp [hx]))
+    rcases hb with e | e | e | e | e <;>
+      (simp [connRows, ih', e, interTypeId, interOrder, mkConnRows, mkConnRow, bind, Except.bind, pure, Except.pure]
+       refine ⟨?_, ?_⟩
+       · cases site[b.i]? <;> rfl
+       · cases site[b.j]? <;> rfl)
+
+theorem lower_orders : lowerAscii "sing" = "sing" ∧ lowerAscii "doub" = "doub" ∧ lowerAscii "trip" = "trip" ∧
+    lowerAscii "quad" = "quad" ∧ lowerAscii "" = "" := by decide +kernel
+
+theorem connType_mk (site : List SiteRow) (k : Nat) (b : Bond) (h : InterOk b.t) :
+    connType (mkConnRow site k b) = some b.t ∧ (typeIdToType (mkConnRow site k b).typeId).isSome = true := by
+  obtain ⟨l1, l2, l3, l4, _⟩ := lower_orders
+  rcases h with e | e | e | e | e <;>
+    simp [mkConnRow, connType, e, interTypeId, interOrder, interOrderMasked, typeIdToType, orderToType, btSingle,
+      l1, l2, l3, l4]
+
+theorem pick_mk (site : List SiteRow) : ∀ (bs : List Bond) (k : Nat), (∀ b ∈ bs, InterOk b.t) →
+    pickBonds (mkConnRows site k bs) (bs.map fun b => (b.i : Int)) (bs.map fun b => (b.j : Int)) = bs := by
+  intro bs
+  induction bs with
+  | nil => intros; rfl
+  | cons b bs ih =>
+    intro k h
+    have hc := (connType_mk site k b (h b (by simp))).1
+    have h1 : ((b.i : Int) != -1) = true := by simp
+    have h2 : ((b.j : Int) != -1) = true := by simp
+    simp only [mkConnRows, List.map_cons, pickBonds, h1, h2, Bool.and_self, if_true, hc]
+    rw [ih (k + 1) (fun x hx => h x (by simp [hx]))]
+    simp
+
+theorem filter_cov_mk (site : List SiteRow) : ∀ (bs : List Bond) (k : Nat), (∀ b ∈ bs, InterOk b.t) →
+    (mkConnRows site k bs).filter (fun r => (typeIdToType r.typeId).isSome) = mkConnRows site k bs := by
+  intro bs
+  induction bs with
+  | nil => intros; rfl
+  | cons b bs ih =>
+    intro k h
+    simp only [mkConnRows, List.filter_cons, (connType_mk site k b (h b (by simp))).2, if_true]
+    rw [ih (k + 1) (fun x hx => h x (by simp [hx]))]
+
+theorem keys_mk (site : List SiteRow) : ∀ (bs : List Bond) (k : Nat), (∀ b ∈ bs, b.i < site.length ∧ b.j < site.length) →
+    (mkConnRows site k bs).map (fun r => normKey r.p1) = bs.map (fun b => (site.map siteKey).getD b.i ⟨"", "", 0, "", ""⟩) ∧
+    (mkConnRows site k bs).map (fun r => normKey r.p2) = bs.map (fun b => (site.map siteKey).getD b.j ⟨"", "", 0, "", ""⟩) := by
+  intro bs
+  induction bs with
+  | nil => intros; exact ⟨rfl, rfl⟩
+  | cons b bs ih =>
+    intro k h
+    obtain ⟨hi, hj⟩ := h b (by simp)
+    obtain ⟨i1, i2⟩ := ih (k + 1) (fun x hx => h x (by simp [hx]))
+    simp only [mkConnRows, List.map_cons, i1, i2]
+    constructor <;> congr 1 <;> simp [mkConnRow, hi, hj, siteKey]
+
+theorem dense_nodup (refs : List Key) (hnd : refs.Nodup) (d : Key) : ∀ (is : List Nat), (∀ i ∈ is, i < refs.length) →
+    findDense (is.map fun i => refs.getD i d) refs = .ok (is.map fun (i : Nat) => (i : Int)) := by
+  intro is h
+  have hone : ∀ i ∈ is, idxsFrom (refs.getD i d) 0 refs = [i] := by
+    intro i hi
+    have hlt := h i hi
+    have : refs.getD i d = refs[i] := by simp [List.getD, hlt]
+    rw [this, idxsFrom_nodup refs 0 i hlt hnd]; simp
+  unfold findDense
+  have hany : (is.map fun i => refs.getD i d).any (fun q => decide ((idxsFrom q 0 refs).length > 1)) = false := by
+    rw [List.any_eq_false]
+    intro q hq
+    obtain ⟨i, hi, rfl⟩ := List.mem_map.mp hq
+    rw [hone i hi]; simp
+  rw [hany]
+  simp only [Bool.false_eq_true, if_false, List.map_map]
+  congr 1
+  apply List.map_congr_left
+  intro i hi
+  show (match idxsFrom (refs.getD i d) 0 refs with | [] => (-1 : Int) | j :: _ => (j : Int)) = (i : Int)
+  rw [hone i hi]
+
 end BiotiteModel.C04
